@@ -21,7 +21,7 @@ func fadv(peer, origin int, seq uint64, key string, metric uint16) rh.Op {
 
 // Fixed regression histories (the situations the property text names).
 func fixed() ([]string, map[string][]rh.Op) {
-	names := []string{"exact-over-wildcard", "wildcard-one-level", "degenerate-wildcards", "case-insensitive", "lowest-metric", "forward-and-agent", "forward-disconnect-order", "refresh-then-cleanup"}
+	names := []string{"local-mixed-case-removal", "exact-over-wildcard", "wildcard-one-level", "degenerate-wildcards", "case-insensitive", "lowest-metric", "forward-and-agent", "forward-disconnect-order", "refresh-then-cleanup"}
 	return names, map[string][]rh.Op{
 		"exact-over-wildcard": {
 			dadv(1, 1, 1, "*.example.com", 0), dadv(2, 2, 1, "api.example.com", 9),
@@ -30,6 +30,13 @@ func fixed() ([]string, map[string][]rh.Op) {
 		"wildcard-one-level": {
 			dadv(1, 1, 1, "*.example.com", 1), dadv(1, 1, 1, "*.b.example.com", 1),
 			dl("a.example.com"), dl("a.b.example.com"), dl("a.c.example.com"), dl("x.a.b.example.com"), dl(".example.com"), dl("example.com"), dl("a.example.com."),
+		},
+		// a local pattern / key with upper-case letters is removable with the spelling it was added with
+		"local-mixed-case-removal": {
+			{Code: rh.OpDAddLocal, Name: "Api.Example.com", Metric: 0}, dadv(1, 1, 1, "api.example.com", 5),
+			dl("api.example.com"), {Code: rh.OpDRmLocal, Name: "Api.Example.com"}, dl("api.example.com"),
+			{Code: rh.OpDAddLocal, Name: "*.Svc.Example.com", Metric: 0}, {Code: rh.OpDRmLocal, Name: "*.Svc.Example.com"}, dl("x.svc.example.com"),
+			{Code: rh.OpFAddLocal, Name: "Web", Target: "h:1", Metric: 0}, {Code: rh.OpFRmLocal, Name: "Web"}, {Code: rh.OpFLookup, Name: "Web"},
 		},
 		// empty label / empty base / blanks: none of these lookups may match
 		"degenerate-wildcards": {
@@ -97,14 +104,11 @@ func TestVerif(t *testing.T) {
 	}
 	if c.Replay != "" {
 		var h rh.History
-		if err := c.ReadReplay(&h); err != nil || len(h.Ops) == 0 {
-			// a failure of the concurrent phase has no operation history: re-run the phase
-			for _, f := range rh.ConcurrentSameSlot(60, 50000) {
-				c.Fail(f.Sig, f.Detail, "concurrent same-slot phase")
-				fmt.Printf("replay: %s: %s\n", f.Sig, f.Detail)
-			}
-			rh.WriteCases(c, nil)
+		if rh.ReplayOther(c) {
 			return
+		}
+		if err := c.ReadReplay(&h); err != nil {
+			t.Fatal(err)
 		}
 		o := rh.RunFixed(t, h.Name, h.Profile, h.Pools, h.Ops, mon, 2)
 		add(o)
@@ -134,6 +138,13 @@ func TestVerif(t *testing.T) {
 			c.Fail(f.Sig, f.Detail, "concurrent same-slot phase: 4 goroutines advertise sequences 1..4 of one origin for one key while RemoveRoutesFromPeer scans the table")
 		}
 		c.Count("concurrent-same-slot-phase")
+		// agent-level layer: real agents, ROUTE_ADVERTISE frames through the dispatcher, real disconnect path
+		rh.AgentPhase(c)
+		// case-insensitivity beyond ASCII (monitor only; the model is ASCII by declared boundary)
+		for _, f := range rh.UnicodeCasePhase() {
+			c.Fail(f.Sig, f.Detail, "non-ASCII case phase: patterns with non-ASCII capitals stored by advertisement, looked up in upper/lower/mixed case")
+		}
+		c.Count("unicode-case-phase")
 	}
 	if c.Thorough() && c.Replay == "" {
 		for _, f := range rh.Stress(c.Rand.Fork(), 8, 3000) {
